@@ -2,7 +2,8 @@
 from .core import enc, run_behaviours, ModelError
 from .render import quote_dq
 
-SCHEMA = ["schema S", "o int i 0 0 7", "o float f 0 0 1.5", "o bool b 0 0 0", "o int il 2 0 ~", "endschema"]
+SCHEMA = ["schema S", "o int i 0 0 7", "o float f 0 0 1.5", "o bool b 0 0 0", "o int il 2 0 ~",
+          "o float fl 2 0 ~", "o bool bl 2 0 ~", "endschema"]
 ERRNOS = [0, 34, 22]
 
 BOUNDARY_INT = [
@@ -56,6 +57,14 @@ def replay(verdict, exe, res, seed=0, tag="num", sigprefix="num"):
                   "errno %d" % ERRNOS[(n + 2) % 3], "setmulti c1 %s 1 %s" % (opt, enc(tok))]
         if ty == "int":
             lines += ["errno %d" % en, "setmulti c1 il 2 5 %s" % enc(tok)]
+        # the same token as an element of a list option: without braces (assigned, appended) and inside braces
+        lopt = {"int": "il", "float": "fl", "bool": "bl"}[ty]
+        good = {"int": "5", "float": "2.5", "bool": "yes"}[ty]
+        q = quote_dq(tok) if tok != "" else '""'
+        lines += ["free c1", "init c1 S 0", "dump 1",
+                  "parsebuf c1 %s" % enc("%s = %s" % (lopt, q)),
+                  "parsebuf c1 %s" % enc("%s += %s" % (lopt, q)),
+                  "parsebuf c1 %s" % enc("%s = {%s, %s}" % (lopt, good, q))]
         lines.append("free c1")
         bid = "n%d" % n
         scripts.append((bid, "\n".join(lines)))
@@ -78,7 +87,12 @@ def replay(verdict, exe, res, seed=0, tag="num", sigprefix="num"):
         opt = {"int": "i", "float": "f", "bool": "b"}[ty]
         default = {"int": "7", "float": 1.5, "bool": False}[ty]
         probs = []
+        ninit = 0
         for l in g["lines"]:
+            if l["cmd"] == "init":
+                ninit += 1
+            if ninit > 1:
+                break       # (the list-element part is judged below)
             if l["cmd"] not in ("parsebuf", "setopt", "setmulti"):
                 continue
             o = [x for x in l["ctx"]["c1"]["o"] if x["n"] == opt][0]
@@ -103,6 +117,21 @@ def replay(verdict, exe, res, seed=0, tag="num", sigprefix="num"):
                     probs.append("%s stored %r, the word denotes %s" % (l["cmd"], got, val))
             if vexp == "bad" and not accepted and l["cmd"] == "parsebuf" and not l["diag"]:
                 probs.append("rejected by the parser without a diagnostic")
+        lopt = {"int": "il", "float": "fl", "bool": "bl"}[ty]
+        pl = [l for l in g["lines"] if l["cmd"] == "parsebuf"]
+        for what, l in zip(("assigned without braces", "appended without braces", "inside braces"), pl[-3:] if len(pl) >= 4 else []):
+            accepted = l["ret"] == 0
+            if accepted != (vexp == "ok"):
+                probs.append("as a list element (%s) the token is %s" % (what, "accepted" if accepted else "rejected"))
+            elif not accepted and not l["diag"]:
+                probs.append("as a list element (%s) rejected without a diagnostic" % what)
+            elif accepted:
+                lv = [x for x in l["ctx"]["c1"]["o"] if x["n"] == lopt][0]["v"]
+                got = lv[-1] if lv else None
+                if ty == "int" and got != str(val):
+                    probs.append("as a list element (%s) stored %s, the numeral denotes %d" % (what, got, val))
+                if ty == "bool" and got != (val == "true"):
+                    probs.append("as a list element (%s) stored %r, the word denotes %s" % (what, got, val))
         if probs:
             verdict.violation("%s:%s" % (sigprefix, desc), "%s :: %s" % (desc, "; ".join(probs[:4])), {"token": tok, "expected": vexp})
     verdict.cov["evaluations"] += len(meta)
